@@ -54,14 +54,16 @@ func (s *Solutions) Next() bool {
 	simYield(s, "U:send-more")
 	s.more <- true
 	simYield(s, "U:recv-next")
-	var ok bool
-	s.env, ok = <-s.next
+	env, ok := <-s.next
 	simYield(s, "U:woke-next")
 	if !ok {
 		// The search has ended. Nobody will receive from s.more anymore, so we must not send to it again.
+		// The last solution stays the current one for Scan.
 		s.done = true
+		return false
 	}
-	return ok
+	s.env = env
+	return true
 }
 
 // Scan copies the variable values of the current solution into the specified struct/map.
